@@ -133,7 +133,7 @@ func TestC23(t *testing.T) {
 		"dspinner.New and dumped; evaluations = reopen cycles; non-trivial = history of at least 3 operations containing an operation " +
 		"with at least 5 writes; distinct by the operation list")
 	cs := vh.NewCases(e, "From V Require Import lib.PinModel model.M_C23.\nOpen Scope N_scope.", "case", "check_case", 25)
-	nHist := e.Pick(90, 2500)
+	nHist := e.Pick(90, 900)
 	corp := corpus()
 	const nNodes = 6
 	reopens := 0
